@@ -208,6 +208,30 @@ func biasDriver(prop, focus string, nb func(c *caseCtx) int, tweak func(c *caseC
 
 func oneToThree(c *caseCtx) int { return 1 + c.rng.Intn(3) }
 
+// c19Tweak: every tenth request measures one criterion in tiny units (all its values and its declared range x 1e-12):
+// a range of 1e-11 is small, not empty
+func c19Tweak(c *caseCtx, g *genReq) {
+	if c.rng.Intn(10) != 0 || len(g.crits) == 0 {
+		return
+	}
+	id := g.crits[c.rng.Intn(len(g.crits))].id
+	for _, a := range g.M["knownAlternatives"].([]interface{}) {
+		cv := a.(M)["criteria"].(M)
+		if v, ok := cv[id].(float64); ok {
+			cv[id] = v * 1e-12
+		}
+	}
+	for i, cr := range g.M["criteria"].([]interface{}) {
+		if cr.(M)["id"] == id {
+			if vr, ok := cr.(M)["valuesRange"].(M); ok {
+				vr["min"], vr["max"] = numOr(vr, "min", 0)*1e-12, numOr(vr, "max", 0)*1e-12
+				g.crits[i].lo, g.crits[i].hi = numOr(vr, "min", 0), numOr(vr, "max", 0)
+			}
+		}
+	}
+	c.count("tiny_unit_criteria", 1)
+}
+
 func init() {
 	register(&propDef{
 		id: "C07",
@@ -299,9 +323,9 @@ func init() {
 			"one criterion, type of the reference criterion, value within mid +- half x [min,max mapped difference], parameters extended. Non-trivial = an anchoring event; distinct as C15.",
 		assumptions: []string{"for the newCriterion applier only the convex-combination necessary condition on the value is judged (the normalised importance weights are not re-derived)"},
 		streams: []*stream{
-			{name: "events-service", n: tierN(5000, 80000), unit: 2500, run: biasDriver("C19", "anchoring", oneToThree, nil), service: true,
+			{name: "events-service", n: tierN(5000, 80000), unit: 2500, run: biasDriver("C19", "anchoring", oneToThree, c19Tweak), service: true,
 				note: "the same generator and oracle as the stream named in front of the dash, but every request goes through decideHandler of main.go in-process (gin binding, the handler's own request object) after a history of 1..3 unrelated requests (accepted and rejected)"},
-			{name: "events", n: tierN(35000, 500000), unit: 3500, run: biasDriver("C19", "anchoring", oneToThree, nil),
+			{name: "events", n: tierN(35000, 500000), unit: 3500, run: biasDriver("C19", "anchoring", oneToThree, c19Tweak),
 				floors: map[string]int64{"anchoring_events": 15000, "anchoring_inline_events": 6000, "anchoring_newcriterion_events": 6000, "anchoring_zero_functions": 300}},
 		},
 	})
